@@ -24,8 +24,10 @@ import (
 	"runtime"
 	"sort"
 	"strings"
+	"sync"
 	"testing"
 	"time"
+	"unsafe"
 
 	"github.com/relab/hotstuff"
 	"github.com/relab/hotstuff/core"
@@ -213,6 +215,7 @@ func c09NewWorld(v *verifOut, scheme string, n int, idset string) *c09World {
 	mk("L3", 3, 1) // high-QC target below B
 	mk("L9", 9, 1) // high-QC target above B
 	mk("D", 4, 2)  // a foreign proposal
+	mk("E", 5, 3)  // an equivocation: a second, different block for B's view
 	// a separate verifier (replica 2's view of the world, its own block store holding every block)
 	vs := &c09Sender{remote: map[hotstuff.Hash]*hotstuff.Block{}}
 	vel := eventloop.New(w.logger, 10)
@@ -605,28 +608,71 @@ func (r *c09Run) step(e c09Ev) (out []c09QC, panicked string) {
 	return r.cur, ""
 }
 
-func (r *c09Run) buckets() []c09Bucket {
-	r.vm.mut.Lock()
-	defer r.vm.mut.Unlock()
-	var bs []c09Bucket
-	for h, votes := range r.vm.verifiedVotes {
-		b := c09Bucket{}
-		if cb, ok := r.w.byHash[h]; ok {
-			b.hash = cb.id
+// buckets reads the collector's table of pending verified votes without depending on how it is keyed: the
+// table is found by reflection (any map whose values are []hotstuff.PartialCert), and the votes are regrouped by
+// the block each of them names, in table order. ok = false when no such table can be read (the representation
+// changed beyond that): the state is then left out of the comparison, the oracles on the emitted certificates
+// and on exactness do not need it.
+func (r *c09Run) buckets() (bs []c09Bucket, ok bool) {
+	defer func() {
+		if p := recover(); p != nil {
+			bs, ok = nil, false
 		}
+	}()
+	vmv := reflect.ValueOf(r.vm).Elem()
+	if f := vmv.FieldByName("mut"); f.IsValid() && f.CanAddr() {
+		if mu, isMu := reflect.NewAt(f.Type(), unsafe.Pointer(f.UnsafeAddr())).Interface().(*sync.Mutex); isMu {
+			mu.Lock()
+			defer mu.Unlock()
+		}
+	}
+	var table reflect.Value
+	certs := reflect.TypeOf([]hotstuff.PartialCert(nil))
+	for i := 0; i < vmv.NumField(); i++ {
+		f := vmv.Field(i)
+		if f.Kind() == reflect.Map && f.Type().Elem() == certs {
+			table = reflect.NewAt(f.Type(), unsafe.Pointer(f.UnsafeAddr())).Elem()
+		}
+	}
+	if !table.IsValid() {
+		return nil, false
+	}
+	byBlock := map[int]*c09Bucket{}
+	it := table.MapRange()
+	for it.Next() {
+		votes := it.Value().Interface().([]hotstuff.PartialCert)
 		for _, v := range votes {
+			id := 0
+			if cb, known := r.w.byHash[v.BlockHash()]; known {
+				id = cb.id
+			}
+			b := byBlock[id]
+			if b == nil {
+				b = &c09Bucket{hash: id}
+				byBlock[id] = b
+			}
 			b.signers = append(b.signers, uint64(v.Signer()))
 		}
-		bs = append(bs, b)
+	}
+	for _, b := range byBlock {
+		bs = append(bs, *b)
 	}
 	sort.Slice(bs, func(i, j int) bool { return bs[i].hash < bs[j].hash })
-	return bs
+	return bs, true
 }
 
 // delayed counts the events waiting in the loop (read-only reflection on the unexported map).
-func (r *c09Run) delayed() int {
+func (r *c09Run) delayed() (n int) {
+	defer func() {
+		if p := recover(); p != nil {
+			n = -1
+		}
+	}()
 	m := reflect.ValueOf(r.el).Elem().FieldByName("waitingEvents")
-	n := 0
+	if !m.IsValid() || m.Kind() != reflect.Map {
+		return -1
+	}
+	n = 0
 	it := m.MapRange()
 	for it.Next() {
 		n += it.Value().Len()
@@ -702,8 +748,7 @@ func (x *c09Vote) fullyValid(w *c09World) bool {
 // exactness evaluates "a QC for B exists by stimulus k iff B is known and a quorum of valid votes has
 // arrived by k" on the observed per-stimulus outputs. lower = distinct signers of valid single-signer
 // votes; upper = distinct members with a genuine signature inside any fully verifying vote.
-func (w *c09World) exactness(store0, remote []*c09Block, evs []c09Ev, outs [][]c09QC, input func() any) {
-	B := w.blocks["B"]
+func (w *c09World) exactness(B *c09Block, store0, remote []*c09Block, evs []c09Ev, outs [][]c09QC, input func() any) {
 	known, fetchable := false, false
 	for _, b := range store0 {
 		if b == B {
@@ -788,7 +833,11 @@ func (w *c09World) syncCase(s *verifStream, stream string, store0, remote []*c09
 		}
 		outs = append(outs, o)
 	}
-	bk, nd := r.buckets(), r.delayed()
+	bk, okState := r.buckets()
+	nd := r.delayed()
+	if nd < 0 {
+		okState, nd = false, 0
+	}
 	evT, evS := make([]string, len(evs)), make([]string, len(evs))
 	kinds := map[string]bool{}
 	for i, e := range evs {
@@ -846,7 +895,18 @@ func (w *c09World) syncCase(s *verifStream, stream string, store0, remote []*c09
 			}
 		}
 	}
-	w.exactness(store0, remote, evs, outs, meta)
+	w.exactness(w.blocks["B"], store0, remote, evs, outs, meta)
+	for _, e := range evs { // an equivocating block of the same view is a target of its own
+		if e.kind == 'V' && e.vote.hash == w.blocks["E"].id {
+			w.exactness(w.blocks["E"], store0, remote, evs, outs, meta)
+			break
+		}
+	}
+	if !okState {
+		// the collector's private tables cannot be read in this tree: the kernel compares the certificates only
+		s = w.v.Stream(s.name+"nostate", "v_mismatches_nostate", s.perFile)
+		w.v.Count("private-state-unreadable")
+	}
 	w.v.Case(s, fmt.Sprintf("(%s, %s, %s, %s, %s, %s, %s)", w.members, c09BlocksTerm(remote), c09BlocksTerm(store0),
 		gList(kEv), gList(kOut), c09BucketsTerm(bk), gNat(nd)), meta())
 }
@@ -912,7 +972,11 @@ func (w *c09World) asyncCase(s *verifStream, store0, remote []*c09Block, setup [
 	}
 	r.drain()
 	qcs := r.cur
-	bk, nd := r.buckets(), r.delayed()
+	bk, okState := r.buckets()
+	nd := r.delayed()
+	if nd < 0 {
+		okState, nd = false, 0
+	}
 
 	// witness: for every certificate in emission order its signers in slice order, then the residual
 	// buckets, each accepted vote followed by the ignored duplicates of its signer; the rest last.
@@ -1038,6 +1102,10 @@ func (w *c09World) asyncCase(s *verifStream, store0, remote []*c09Block, setup [
 		} else {
 			w.v.Oracle(true, "", "", nil)
 		}
+	}
+	if !okState {
+		w.v.Count("private-state-unreadable") // no residual buckets, no witness order: the oracles above have spoken
+		return
 	}
 	w.v.Case(s, fmt.Sprintf("(%s, %s, %s, %s, %s, %s, %s, %s, %s)", w.members, c09BlocksTerm(remote), c09BlocksTerm(store0),
 		gList(setT), burstT, witT, c09QCsTerm(qcs), c09BucketsTerm(bk), gNat(nd)), meta)
@@ -1272,6 +1340,43 @@ func TestVerifC09(t *testing.T) {
 		}
 	}
 
+	// (a5) equivocation: two different blocks B and E for one view; the votes for them arrive interleaved in every
+	// order (the vote for the other block first, in between, last); each block's votes count for that block only
+	for _, n := range []int{4, 7} {
+		w := world(crypto.NameECDSA, n)
+		B, E := w.blocks["B"], w.blocks["E"]
+		both := []*c09Block{w.blocks["G"], B, E, w.blocks["C"], w.blocks["L3"]}
+		noE := []*c09Block{w.blocks["G"], B, w.blocks["C"], w.blocks["L3"]}
+		type variant struct {
+			store []*c09Block
+			items []c09Ev
+		}
+		var variants []variant
+		if n == 4 {
+			variants = []variant{
+				{both, []c09Ev{V(w.honest(1, B)), V(w.honest(2, B)), V(w.honest(3, B)), V(w.honest(4, E)), V(w.honest(3, E))}},
+				{both, []c09Ev{V(w.honest(1, B)), V(w.honest(2, B)), V(w.honest(4, E)), V(w.honest(1, E)), V(w.honest(2, E))}},
+				{noE, []c09Ev{V(w.honest(1, B)), V(w.honest(2, B)), V(w.honest(3, B)), V(w.honest(4, E)), P(E)}},
+			}
+		} else {
+			variants = []variant{{both, []c09Ev{V(w.honest(1, B)), V(w.honest(2, B)), V(w.honest(3, B)), V(w.honest(4, B)), V(w.honest(5, B)), V(w.honest(6, E)), V(w.honest(7, E))}}}
+		}
+		for vi, va := range variants {
+			cnt := 0
+			c09Perms(len(va.items), func(p []int) {
+				cnt++
+				if n == 7 && !deep && cnt%35 != 0 {
+					return // 144 of the 5040 orders in the quick tier
+				}
+				evs := []c09Ev{Hi(w.blocks["L3"])}
+				for _, i := range p {
+					evs = append(evs, va.items[i])
+				}
+				w.syncCase(sPerm, fmt.Sprintf("perm-equivocation-%d", vi), va.store, []*c09Block{w.blocks["R"]}, evs)
+			})
+		}
+	}
+
 	// (b) seeded random stream: every scheme, n in {4,7}, several hostile votes, duplicates after the
 	// certificate, foreign proposals, fetches, high-QC moves below and above the block
 	schemes := []string{crypto.NameECDSA, crypto.NameEDDSA, crypto.NameBLS12}
@@ -1338,6 +1443,17 @@ func TestVerifC09(t *testing.T) {
 			pool = append(pool, P(w.blocks["C"]))
 		case 3:
 			pool = append(pool, Hi(w.blocks["D"]))
+		}
+		if v.rng.Intn(4) == 0 { // an equivocating block of B's view gathers votes of its own
+			E := w.blocks["E"]
+			for _, i := range v.rng.Perm(n)[:1+v.rng.Intn(w.q)] {
+				pool = append(pool, V(w.honest(i+1, E)))
+			}
+			if v.rng.Intn(2) == 0 {
+				store0 = append(store0, E)
+			} else {
+				pool = append(pool, P(E))
+			}
 		}
 		if v.rng.Intn(3) == 0 { // the high TC moves (earlier / the block's / later views), possibly twice
 			pool = append(pool, TC([]uint64{2, 5, 6, 9}[v.rng.Intn(4)]))
@@ -1508,6 +1624,13 @@ func TestVerifC09(t *testing.T) {
 			for _, i := range v.rng.Perm(n)[:w.q] {
 				burst = append(burst, w.honest(i+1, w.blocks["C"]))
 			}
+		}
+		if v.rng.Intn(3) == 0 { // an equivocating block of the same view: its votes are verified concurrently with B's
+			store0 = append(store0, w.blocks["E"])
+			for _, i := range v.rng.Perm(n)[:1+v.rng.Intn(w.q)] {
+				burst = append(burst, w.honest(i+1, w.blocks["E"]))
+			}
+			w.v.Count("async-equivocation")
 		}
 		v.rng.Shuffle(len(burst), func(i, j int) { burst[i], burst[j] = burst[j], burst[i] })
 		latePos := -1
